@@ -238,6 +238,8 @@ def gen_case(rng, n_ops, faults=False, crashes=False):
     if me_on:
         out = with_me_tags(rng.fork("metags"), out, faults)
     out = with_deluser(rng.fork("deluser"), out, faults)
+    if me_on:
+        out = with_me_as(rng.fork("meas"), out, faults)
     if any(o.startswith("sess S8 ") for o in out):
         # after a restart the sessions stand for new connections, logged in again - which an account that is gone cannot do: its
         # session goes straight back to being logged out
@@ -344,6 +346,29 @@ def with_p2p_raw(r2, out, faults):
                        f"deltopic {s_} {key} hard=1"])
         ins = [o]
         if faults and o.split(" ")[0] in ("sub", "deltopic", "get") and r2.chance(1, 5):
+            ins.insert(0, f"fail {1 + r2.below(2)}")
+        out = out[:pos] + ins + out[pos:]
+    return out
+
+
+def with_me_as(r2, out, faults):
+    """in a third of the histories with `me` topics the root session acts there for somebody else (`as=`): it attaches to that user's `me`
+    and `fnd`, asks, leaves - every such request belongs on the topic of the user it is made for; choices from a generator of their own"""
+    if not r2.chance(1, 3):
+        return out
+    first = next((i for i, o in enumerate(out) if o.split(" ")[0] not in ("reset", "user", "sess")), len(out))
+    for _ in range(2 + r2.below(5)):
+        pos = first + r2.below(max(1, len(out) - first + 1))
+        while pos > 0 and pos < len(out) and out[pos - 1].split(" ")[0] in ("fail", "crash"):
+            pos += 1
+        if any(x.startswith("deluser ") for x in out[:pos]):
+            continue            # (what root sees of the `me` of an account which is gone is not part of this stream)
+        u = r2.choice(["U1", "U2", "U1", "U4"])
+        o = r2.choice([f"sub S7 me as={u}", f"sub S7 me as={u}", f"get S7 me desc as={u}", f"get S7 me sub as={u}", f"leave S7 me as={u}",
+                       f"sub S7 fnd as={u}", f"get S7 fnd desc as={u}", f"leave S7 fnd as={u}", f"pub S7 me CA as={u}",
+                       f"setsub S7 me mode={r2.choice(['JRWPAS', 'JP', 'N'])} as={u}", f"leave S7 me unsub=1 as={u}", f"get S7 me tags as={u}"])
+        ins = [o]
+        if faults and o.split(" ")[0] in ("sub", "get", "setsub") and r2.chance(1, 6):
             ins.insert(0, f"fail {1 + r2.below(2)}")
         out = out[:pos] + ins + out[pos:]
     return out
@@ -1030,10 +1055,14 @@ def scenario_p2p_reinvite(rng):
     out = _preamble(rng)
     if rng.chance(1, 2):
         out.append("sub S2 me")
-    out.extend(["sub S1 U2", "sub S2 U1", "pub S2 U1 R1"])
+    out.extend(["sub S1 U2", "sub S2 U1", "pub S2 U1 R1", "pub S1 U2 R0", "pub S1 U2 R00"])
     out.append(rng.choice(["leave S2 U1 unsub=1", "deltopic S2 U1", "delsub S1 U2 U2"]))
     if rng.chance(1, 3):
         out.append("pub S1 U2 R2")
+    if rng.chance(1, 2):
+        # the one who is gone still sends notes (a receipt needs no attachment: the hub hands it to the loaded topic)
+        for _ in range(1 + rng.below(2)):
+            out.append(f"note {rng.choice(['S2', 'S5'])} U1 {rng.choice(['recv', 'recv', 'read', 'kp'])} {rng.choice([0, 2, 3, 3])}")
     out.append("setsub S1 U2 user=U2" + rng.choice(["", " mode=JRWPA", " mode=JRWA", " mode=JRPA"]))
     for _ in range(1 + rng.below(3)):
         out.append(rng.choice(["pub S1 U2 R3", "pub S1 U2 R4 noecho=1", "get S1 U2 sub", "note S1 U2 read 1", "pub S4 U2 R5"]))
